@@ -123,6 +123,36 @@ func VerifC14Interleaved() {
 	}
 }
 
+// C14 second epoch: vectors 0 and 1 are committed; the next epoch STARTS with a batch for vector 1 while
+// nothing is pending for vector 0 (param 0 = 1: a batch for vector 0 follows). Whatever the contract accepts
+// must be the roster after the commit, in submission order; the commit empties the pending roster, so a
+// third epoch with one batch for vector 0 holds exactly that batch.
+func VerifC14SecondEpoch() {
+	deployContainerOnly()
+	a, b, c, d, e := batch("a", 1), batch("b", 1), batch("c", 2), batch("d", 1), batch("e", 1)
+	vAssume(alphaC("addNextEpochNodes", cid14, 0, a))
+	vAssume(alphaC("addNextEpochNodes", cid14, 1, b))
+	vAssume(alphaC("commitContainerListUpdate", cid14, []any{1, 1}))
+	var want0, want1 []any
+	if alphaC("addNextEpochNodes", cid14, 1, c) {
+		vCover("vector-1-accepted-with-nothing-pending-for-vector-0")
+		want1 = append(want1, c...)
+	}
+	if vParam(0) == 1 {
+		vAssume(alphaC("addNextEpochNodes", cid14, 0, d))
+		want0 = append(want0, d...)
+		vAssume(alphaC("addNextEpochNodes", cid14, 1, e))
+		want1 = append(want1, e...)
+	}
+	vAssume(alphaC("commitContainerListUpdate", cid14, []any{1, 1}))
+	vCover("second-epoch-committed")
+	vAssert(sameKeys(nodesOf(0), want0) && sameKeys(nodesOf(1), want1), "C14/nodes-are-what-was-added-in-submission-order")
+	f := batch("f", 1)
+	vAssume(alphaC("addNextEpochNodes", cid14, 0, f))
+	vAssume(alphaC("commitContainerListUpdate", cid14, []any{1}))
+	vAssert(sameKeys(nodesOf(0), f) && len(nodesOf(1)) == 0, "C14/commit-replaces-the-roster-and-empties-the-pending-one")
+}
+
 // C14 counter encoding: 2 bytes, round trip, order preserving, for every counter 1..32767.
 func VerifC14Counter() {
 	c1, c2 := vInt("c1"), vInt("c2")
